@@ -30,6 +30,7 @@ let zt_of_z (z : M.z) : Z.t =
   match z with M.Z0 -> Z.zero | M.Zpos p -> zt_of_pos p | M.Zneg p -> Z.neg (zt_of_pos p)
 
 let rec nat_of_int n = if n <= 0 then M.O else M.S (nat_of_int (n - 1))
+let rec int_of_nat = function M.O -> 0 | M.S k -> 1 + int_of_nat k
 let z_of_string s = z_of_zt (Z.of_string s)
 let z_of_int i = z_of_zt (Z.of_int i)
 let string_of_z z = Z.to_string (zt_of_z z)
@@ -573,6 +574,8 @@ let suite_stage t v =
                     fulls = fs; waits = ws; cmps = cs; finals = fins; flcks = lcks; rlog = recs } in
         `IM (ann, img)
     | "AG" -> `AG (name_tok ())
+    | "AA" -> `AA (nz t)
+    | "CC" -> `CC
     | "TM" -> let n = name_tok () in let e = nz t in let d = bytes_of_hex (next t) in `TM (n, e, d)
     | s -> raise (Malformed ("stage op " ^ s))) in
   expect t "=";
@@ -768,6 +771,24 @@ let suite_stage t v =
            let ia = nz t in
            let (st', ma) = M.received_q !st now ps in
            if debug then Printf.eprintf "op %d received impl=%s model=%s\n" k (string_of_z ia) (string_of_z ma);
+           (* C05: a retransmission of a version that is delivered and logged is answered "already
+              received" - also when the delivery is known from the log only *)
+           (match !last_snap with
+            | Some sn ->
+                (* the version delivered LAST under a name vs. an older one that a newer version replaced *)
+                let last_hash nm = List.fold_left (fun acc (ln, _, lh, _) -> if ln = nm then Some lh else acc) None sn.slog in
+                let logged p = List.exists (fun (ln, _, lh, _) ->
+                  ln = string_of_name p.M.p_name && lh = string_of_name p.M.p_hash) sn.slog in
+                let latest p = last_hash (string_of_name p.M.p_name) = Some (string_of_name p.M.p_hash) in
+                let rec lead f = function p :: r when f p -> 1 + lead f r | _ -> 0 in
+                let want = lead latest ps in
+                if int_of_z ia < want then
+                  oracle v "delivered_version_not_recognised" (int_of_z ma < want)
+                else begin
+                  let want2 = lead logged ps in
+                  if int_of_z ia < want2 then oracle v "superseded_version_not_recognised" (int_of_z ma < want2)
+                end
+            | None -> ());
            if not (M.Z.eqb ia ma) then diff v ("received@" ^ ks);
            (* C09: parts counted as received are on record or the file was delivered/held *)
            st := st'
@@ -804,6 +825,16 @@ let suite_stage t v =
              List.iter (fun r -> Hashtbl.add written (string_of_name n, string_of_name c.M.c_hash) r) c.M.c_parts) img.M.cmps;
            st := fst (M.sstep md5_name !st (M.OImage img))
        | `AG n -> ignore (next t); st := fst (M.sstep md5_name !st (M.OAge n))
+       | `AA d ->
+           ignore (next t);
+           st := fst (M.sstep md5_name (M.settle md5_name M.sETTLE_FUEL !st now) (M.OAgeAll d))
+       | `CC ->
+           let n = ni t in
+           let ic = times n (fun () -> let nm = str_of_hex (next t) in let stt = ni t in (nm, stt)) in
+           st := fst (M.sstep md5_name (M.settle md5_name M.sETTLE_FUEL !st now) (M.OCleanCache now));
+           let mc = List.sort compare (List.map (fun (nm, o) ->
+             (string_of_name nm, int_of_z (List.nth !st.M.heap (int_of_nat o)).M.f_state)) !st.M.cache) in
+           if List.sort compare ic <> mc then diff v (Printf.sprintf "cache@%d" k)
        | `TM (n, e, d) -> ignore (next t); st := fst (M.sstep md5_name !st (M.OTamper (n, e, d))));
       if v.diffs <> [] then stop := true
     end) ops;
